@@ -3015,6 +3015,12 @@ class TLSConnection(TLSRecordLayer):
         dc_sig_scheme = None
         dc_client_ext = clientHello.getExtension(
             ExtensionType.delegated_credential)
+        # the list of signature schemes is defined as <2..2^16-2>
+        if dc_client_ext is not None and not dc_client_ext.sigalgs:
+            for result in self._sendError(
+                    AlertDescription.decode_error,
+                    "Empty delegated_credential extension"):
+                yield result
         dc_server_ext = None
         if del_cred:
             dc_server_ext = [del_cred.cred.dc_cert_verify_algorithm]
